@@ -10,10 +10,12 @@ class MapFillerQubit:
     """alias fill-in rewrites the reference to root[phys]"""
 
     def requires(self, qubit):
-        return wf_qubit(qubit)
+        return wf_qubit(qubit) and isinstance(self.hidden_names, tuple)
 
     def raises_JaqalError(self, qubit):
-        return chain_bad(qubit._alias_from, ival(qubit._alias_index))
+        return (chain_bad(qubit._alias_from, ival(qubit._alias_index))
+                # C07: inside a macro whose parameter has the register's name the reference could not be written
+                or root(qubit._alias_from)._name in self.hidden_names)
 
     raises_only = ("JaqalError",)
 
